@@ -56,14 +56,23 @@ fn programs(tier: &str, seed: u64) -> Vec<Program> {
     });
     {
         let mut st = seed ^ 0x5EED3;
-        let want = if tier == "thorough" { 6000 } else { 600 };
+        let want = if tier == "thorough" { 3000 } else { 600 };
         for _ in 0..want.min(all3.len()) {
             let i = (splitmix(&mut st) % all3.len() as u64) as usize;
             out.push(all3[i].clone());
         }
     }
     if tier == "thorough" {
-        out.extend(all2);
+        // the exhaustive k=2 space (tens of thousands of programs, many of them division /
+        // select shapes that need the non-linear solver stages) took more than an hour: a larger
+        // seeded sample instead
+        let mut st = seed ^ 0xC0FFEE;
+        let want = 6000usize;
+        let n = all2.len();
+        for _ in 0..want.min(n) {
+            let i = (splitmix(&mut st) % n as u64) as usize;
+            out.push(all2[i].clone());
+        }
     } else {
         // quick: deterministic sample of the k=2 space (seeded)
         let mut st = seed ^ 0xC0FFEE;
@@ -75,16 +84,16 @@ fn programs(tier: &str, seed: u64) -> Vec<Program> {
         }
     }
     // seeded random DAGs
-    let n_rand = if tier == "thorough" { 6000 } else { 800 };
+    let n_rand = if tier == "thorough" { 3000 } else { 800 };
     let mut rng = SmallRng::seed_from_u64(seed.wrapping_mul(7919).wrapping_add(13));
     for i in 0..n_rand {
         let max_ops = if i % 4 == 0 { 12 } else { 6 };
         out.push(gen_random(&mut rng, max_ops, true));
     }
-    for _ in 0..(if tier == "thorough" { 2000 } else { 400 }) {
+    for _ in 0..(if tier == "thorough" { 1200 } else { 400 }) {
         out.push(gen_private_alias(&mut rng));
     }
-    let n_fus = if tier == "thorough" { 8000 } else { 1500 };
+    let n_fus = if tier == "thorough" { 5000 } else { 1500 };
     for i in 0..n_fus {
         out.push(if i % 2 == 0 { gen_fusion_family(&mut rng) } else { gen_fusion_dag(&mut rng) });
     }
